@@ -7,6 +7,7 @@ import "sync"
 type FontTracker struct {
 	mu    sync.Mutex
 	fonts map[string]bool // Set of unique font families
+	order []string        // Font families in first-use order (map iteration order is random)
 }
 
 // NewFontTracker creates a new font tracker
@@ -24,7 +25,10 @@ func (ft *FontTracker) AddFont(fontFamily string) {
 
 	ft.mu.Lock()
 	defer ft.mu.Unlock()
-	ft.fonts[fontFamily] = true
+	if !ft.fonts[fontFamily] {
+		ft.fonts[fontFamily] = true
+		ft.order = append(ft.order, fontFamily)
+	}
 }
 
 // GetFonts returns all tracked font families as a slice
@@ -32,10 +36,10 @@ func (ft *FontTracker) GetFonts() []string {
 	ft.mu.Lock()
 	defer ft.mu.Unlock()
 
-	fonts := make([]string, 0, len(ft.fonts))
-	for font := range ft.fonts {
-		fonts = append(fonts, font)
-	}
+	// Return the families in the order they were first used so that the generated
+	// font imports do not depend on Go's randomized map iteration order.
+	fonts := make([]string, len(ft.order))
+	copy(fonts, ft.order)
 	return fonts
 }
 
